@@ -64,6 +64,44 @@ def run(chk):
                         {"ODE": "LossODE", "statio_PDE": "LossPDEStatio", "nonstatio_PDE": "LossPDENonStatio"}[eq_type]
                     chk.run("C20.R1", site + cname + ".evaluate", cfg, go, construct=f"{cname}.evaluate purity")
 
+    # ---- R1b: parameter batch together with observed parameters (two per-row dictionaries are merged)
+    for eq_type in all_terms:
+        def go(eq_type=eq_type):
+            S = SingleLoss(E, eq_type, 'PINN', d=2, terms=('dyn', 'obs'), eq_keys=('nu', 'th'))
+            S.evaluate(param_keys=('nu',), observed_params=('th',))
+            return "no write into the batch dictionaries"
+        chk.run("C20.R1", {"ODE": "jinns.loss._LossODE:LossODE", "statio_PDE": "jinns.loss._LossPDE:LossPDEStatio",
+                           "nonstatio_PDE": "jinns.loss._LossPDE:LossPDENonStatio"}[eq_type] + ".evaluate",
+                {"loss": eq_type, "param_batch": ["nu"], "observed": ["th"]}, go, construct="evaluate purity (param batch + observed params)")
+
+    # ---- R5: dict insertion order (jit re-creates dictionaries with sorted keys: any dependence on the insertion order
+    #          is an eager / jit discrepancy)
+    chk.rule("C20.R5", "system-loss results do not depend on the insertion order of the user's dictionaries (networks, "
+                       "equations, weights, boundary / initial specifications)", floor=3)
+    from ..specs import canon
+    from .C03 import scalar_of
+    for eq_type, names in all_terms.items():
+        def go(eq_type=eq_type, names=names):
+            res = []
+            for rev in ((), ('u',), ('dyn',), ('weights',), ('specs',), ('u', 'dyn', 'weights', 'specs')):
+                SL = SystemLoss(E, eq_type, 'PINN', terms=names, weights='dict', reverse_dicts=rev)
+                total, terms = SL.evaluate()
+                res.append({k: canon(scalar_of(v, k)) for k, v in terms.items()})
+            for other in res[1:]:
+                for k in res[0]:
+                    if res[0][k] != other[k]:
+                        raise Violation(k, f"with another insertion order of one of the dictionaries: {other[k]}", f"{res[0][k]}")
+            return "identical formulas for both insertion orders"
+        site = "jinns.loss._LossODE:SystemLossODE.evaluate" if eq_type == 'ODE' else "jinns.loss._LossPDE:SystemLossPDE.evaluate"
+        chk.run("C20.R5", site, {"loss": eq_type}, go, construct=f"insertion-order invariance[{eq_type}]")
+
+    # ---- R4: generator indices cannot overflow int32 (eager python ints vs int32 under jit)
+    chk.rule("C20.R4", "initial batch indices: index + batch size <= int32 max for every batch size (no eager / jit "
+                       "discrepancy through integer wrap-around), first draw reshuffles", floor=20)
+    from ..genenv import GenEnv
+    from .C09 import run_initial_index
+    run_initial_index(chk, GenEnv(chk.repo), "C20.R4")
+
     # ---- R2 / R3
     funcs = []
     imports = {}
